@@ -51,7 +51,7 @@ func planFor(prop, tier string) (tierPlan, bool) {
 		// of concurrent workers on one shared instance: sched (plain build: only heading ids
 		// are judged here, data races are C07's)
 		if q {
-			return tierPlan{batches: []batch{{engine: "hist", runs: 160000}, {engine: "sched", runs: 16000, coldRuns: 200}, {engine: "sched", race: true, deep: true, runs: 1600, coldRuns: 320}}, level: "exploration"}, true
+			return tierPlan{batches: []batch{{engine: "hist", runs: 160000}, {engine: "sched", runs: 12000, coldRuns: 160}, {engine: "sched", race: true, deep: true, runs: 800, coldRuns: 240}}, level: "exploration"}, true
 		}
 		return tierPlan{batches: []batch{{engine: "hist", runs: 1000000}, {engine: "sched", runs: 400000, coldRuns: 3000}, {engine: "sched", race: true, deep: true, runs: 60000, coldRuns: 6000}}, level: "exploration"}, true
 	case "C07":
